@@ -6,6 +6,7 @@ import (
 
 	"github.com/Fantom-foundation/lachesis-base/hash"
 	"github.com/Fantom-foundation/lachesis-base/inter/dag"
+	"github.com/Fantom-foundation/lachesis-base/kvdb"
 	"github.com/Fantom-foundation/lachesis-base/kvdb/memorydb"
 	"github.com/Fantom-foundation/lachesis-base/vecfc"
 	"pgregory.net/rapid"
@@ -20,6 +21,8 @@ type Index struct {
 	Crits []error
 	evs   map[hash.Event]dag.Event
 	Added []bool
+	db    kvdb.Store
+	cfg   vecfc.IndexConfig
 }
 
 // DrawConfig draws cache sizes from {0, 1, small, lite}.
@@ -39,10 +42,39 @@ func DrawConfig(t *rapid.T, label string) (vecfc.IndexConfig, string) {
 
 // New creates an empty index for the reference's validators.
 func New(ref *graphref.Ref, cfg vecfc.IndexConfig) *Index {
-	x := &Index{Ref: ref, evs: map[hash.Event]dag.Event{}, Added: make([]bool, len(ref.Evs))}
+	x := &Index{Ref: ref, evs: map[hash.Event]dag.Event{}, Added: make([]bool, len(ref.Evs)), db: memorydb.New(), cfg: cfg}
 	x.Idx = vecfc.NewIndex(func(err error) { x.Crits = append(x.Crits, err) }, cfg)
-	x.Idx.Reset(ref.Validators(), memorydb.New(), func(id hash.Event) dag.Event { return x.evs[id] })
+	x.Idx.Reset(ref.Validators(), x.db, func(id hash.Event) dag.Event { return x.evs[id] })
 	return x
+}
+
+// AddNoFlush indexes event i and leaves the flush to the caller.
+func (x *Index) AddNoFlush(i int) error {
+	e := x.Ref.Evs[i]
+	for _, p := range e.Parents {
+		if !x.Added[p] {
+			return fmt.Errorf("harness: parent e%d of e%d not added", p, i)
+		}
+	}
+	de := x.Ref.DagEvent(e, e.Frame)
+	x.evs[de.ID()] = de
+	if err := x.Idx.Add(de); err != nil {
+		return err
+	}
+	x.Added[i] = true
+	return nil
+}
+
+// Reopen replaces the index object by a new one over the same database, as a restarted node does (everything
+// must have been flushed).
+func (x *Index) Reopen() {
+	x.Idx = vecfc.NewIndex(func(err error) { x.Crits = append(x.Crits, err) }, x.cfg)
+	x.Idx.Reset(x.Ref.Validators(), x.db, func(id hash.Event) dag.Event { return x.evs[id] })
+}
+
+// ResetSameDB calls Reset on the same index object with the same validators and the same database.
+func (x *Index) ResetSameDB() {
+	x.Idx.Reset(x.Ref.Validators(), x.db, func(id hash.Event) dag.Event { return x.evs[id] })
 }
 
 // Add indexes event i (its parents must have been added) and flushes.
@@ -68,5 +100,6 @@ func (x *Index) Add(i int) error {
 func (x *Index) ResetWith(ref *graphref.Ref) {
 	x.Ref = ref
 	x.Added = make([]bool, len(ref.Evs))
-	x.Idx.Reset(ref.Validators(), memorydb.New(), func(id hash.Event) dag.Event { return x.evs[id] })
+	x.db = memorydb.New()
+	x.Idx.Reset(ref.Validators(), x.db, func(id hash.Event) dag.Event { return x.evs[id] })
 }
